@@ -124,3 +124,36 @@ package builder
 //@   runtime_panics
 //@   ensures smHas[smKey(uint64(_this.builderGenerators), dstType)]
 //@   xensures smHas[smKey(uint64(_this.builderGenerators), dstType)] == old(smHas[smKey(uint64(_this.builderGenerators), dstType)])
+
+// ---------------------------------------------------------------------------------------------
+// Chunked arrays (C04 kernel). A chunk header counts ELEMENTS, data events deliver BYTES: the
+// remaining length of the chunk is kept in bytes (elements times the element width announced by
+// BeginArray; bit arrays rounded up), the collected data is the concatenation of the data events,
+// and the completion callback (which builds the value from the collected bytes) runs exactly once,
+// exactly when the final chunk's last byte has arrived (or its header announces no elements).
+// cbCalls counts calls of the completion callback (ghost).
+//@ ghost cbCalls uint64
+//@ iface builder.Context.arrayCompletionCallback
+//@   modifies cbCalls, allheap
+//@   ensures cbCalls == old(cbCalls) + 1
+//@   may_panic
+
+//@ func (*Context).BeginArray
+//@   modifies _this.arrayElementBitWidth, _this.arrayCompletionCallback, _this.chunkedData
+//@   ensures _this.arrayElementBitWidth == elementBitWidth && len(_this.chunkedData) == 0
+
+//@ func (*Context).BeginArrayChunk
+//@   requires _this.arrayCompletionCallback != nil
+//@   modifies _this.chunkRemainingLength, _this.moreChunksFollow, cbCalls, allheap
+//@   ensures cbCalls == old(cbCalls) + ite(!moreChunksFollow && cbe.ChunkBytes(old(_this.arrayElementBitWidth), length) == 0, uint64(1), uint64(0))
+//@   ensures cbCalls == old(cbCalls) ==> _this.chunkRemainingLength == cbe.ChunkBytes(old(_this.arrayElementBitWidth), length) && _this.moreChunksFollow == moreChunksFollow && _this.arrayElementBitWidth == old(_this.arrayElementBitWidth)
+//@   may_panic
+
+//@ func (*Context).AddArrayData
+//@   requires _this.arrayCompletionCallback != nil && uint64(len(data)) <= _this.chunkRemainingLength && len(_this.chunkedData) + len(data) <= 0x1000000000
+//@   modifies _this.chunkRemainingLength, _this.chunkedData, memall(uint8), alloc, cbCalls, allheap
+//@   ensures cbCalls == old(cbCalls) + ite(!old(_this.moreChunksFollow) && old(_this.chunkRemainingLength) == uint64(len(data)), uint64(1), uint64(0))
+//@   ensures cbCalls == old(cbCalls) ==> _this.chunkRemainingLength == old(_this.chunkRemainingLength) - uint64(len(data)) && len(_this.chunkedData) == old(len(_this.chunkedData)) + len(data)
+//@   ensures cbCalls == old(cbCalls) ==> forall i int :: 0 <= i && i < old(len(_this.chunkedData)) ==> _this.chunkedData[i] == old(_this.chunkedData[i])
+//@   ensures cbCalls == old(cbCalls) ==> forall i int :: 0 <= i && i < len(data) ==> _this.chunkedData[old(len(_this.chunkedData)) + i] == old(data[i])
+//@   may_panic
